@@ -390,3 +390,118 @@ pub fn make_vm_with_prim(s: Settings) -> RootedThread {
     apply_settings(&vm, s);
     vm
 }
+
+// ---------------------------------------------------------------------------------------------
+// type-directed shape check: does a VM value have the shape of the type the checker reported?
+
+use gluon::base::types::{ArcType, BuiltinType, NullInterner, Type};
+
+/// Returns Err(description) if `v` cannot be a value of type `t`. Conservative: anything the
+/// checker cannot decide locally (type variables, opaque/abstract types, userdata) is accepted.
+pub fn shape_check(vm: &Thread, v: ValueRef, t: &ArcType, depth: usize) -> Result<(), String> {
+    if depth == 0 {
+        return Ok(());
+    }
+    let env = vm.get_env();
+    let t = gluon::base::resolve::remove_aliases_cow(&env, &mut NullInterner, t);
+    let t: &ArcType = &t;
+    let mismatch = |what: &str| Err(format!("value {} where the type says {} ({})", walk(v.clone(), 3), t, what));
+    match &**t {
+        Type::Forall(_, inner) => shape_check(vm, v, inner, depth),
+        Type::Builtin(b) => match (b, &v) {
+            (BuiltinType::Int, ValueRef::Int(_)) => Ok(()),
+            (BuiltinType::Byte, ValueRef::Byte(_)) => Ok(()),
+            (BuiltinType::Float, ValueRef::Float(_)) => Ok(()),
+            (BuiltinType::String, ValueRef::String(_)) => Ok(()),
+            (BuiltinType::Char, ValueRef::Int(c)) => {
+                if char::from_u32(*c as u32).is_some() && *c >= 0 && *c <= u32::MAX as i64 {
+                    Ok(())
+                } else {
+                    mismatch("not a char")
+                }
+            }
+            (BuiltinType::Array, _) | (BuiltinType::Function, _) => Ok(()),
+            _ => mismatch("builtin"),
+        },
+        Type::App(f, args) => {
+            let f = gluon::base::resolve::remove_aliases_cow(&env, &mut NullInterner, f);
+            match (&**f, &v) {
+                (Type::Builtin(BuiltinType::Array), ValueRef::Array(a)) if args.len() == 1 => {
+                    for x in a.iter() {
+                        shape_check(vm, x.as_ref(), &args[0], depth - 1)?;
+                    }
+                    Ok(())
+                }
+                (Type::Builtin(BuiltinType::Array), _) => mismatch("array"),
+                _ => Ok(()),
+            }
+        }
+        Type::Function(..) => match v {
+            ValueRef::Closure(_) | ValueRef::Internal | ValueRef::Userdata(_) => Ok(()),
+            _ => mismatch("function"),
+        },
+        Type::Record(row) => match &v {
+            ValueRef::Data(d) => {
+                let fields: Vec<_> = gluon::base::types::row_iter(row).collect();
+                // an open row (polymorphic record) may carry more fields than are listed
+                let closed = {
+                    let mut it = gluon::base::types::row_iter(row);
+                    for _ in it.by_ref() {}
+                    matches!(&**it.current_type(), Type::EmptyRow)
+                };
+                if closed && d.len() != fields.len() {
+                    return mismatch("record arity");
+                }
+                if !closed {
+                    return Ok(());
+                }
+                for (i, f) in fields.iter().enumerate() {
+                    shape_check(vm, d.get(i).unwrap(), &f.typ, depth - 1)?;
+                }
+                Ok(())
+            }
+            _ => mismatch("record"),
+        },
+        Type::Variant(row) => match &v {
+            ValueRef::Data(d) => {
+                let ctors: Vec<_> = gluon::base::types::row_iter(row).collect();
+                let tag = d.tag() as usize;
+                if tag >= ctors.len() {
+                    return mismatch("variant tag out of range");
+                }
+                let args: Vec<_> = gluon::base::types::arg_iter(&ctors[tag].typ)
+                    .cloned()
+                    .collect::<Vec<ArcType>>();
+                if args.len() != d.len() {
+                    return mismatch("constructor arity");
+                }
+                for (i, a) in args.iter().enumerate() {
+                    shape_check(vm, d.get(i).unwrap(), a, depth - 1)?;
+                }
+                Ok(())
+            }
+            _ => mismatch("variant"),
+        },
+        _ => Ok(()),
+    }
+}
+
+/// Like `run`, and additionally checks the result value against the reported type.
+pub fn run_checked(vm: &RootedThread, name: &str, src: &str) -> (Outcome, Option<String>) {
+    let r = std::panic::catch_unwind(std::panic::AssertUnwindSafe(|| {
+        match vm.run_expr::<OpaqueValue<RootedThread, Hole>>(name, src) {
+            Ok((v, t)) => {
+                let shape = shape_check(vm, v.get_ref(), &t, 12).err();
+                (Outcome::Ok(walk(v.get_ref(), 40), t.to_string()), shape)
+            }
+            Err(e) => {
+                let (k, m) = classify_error(&e);
+                (Outcome::Err(k, m), None)
+            }
+        }
+    }));
+    match r {
+        Ok(o) => o,
+        Err(p) => (Outcome::Err(ErrKind::HostPanic, panic_message(&p)), None),
+    }
+}
